@@ -5,6 +5,7 @@ import (
 	"encoding/json"
 	"flag"
 	"fmt"
+	"sync"
 	"time"
 
 	"github.com/caddyserver/caddy/v2"
@@ -59,6 +60,9 @@ func runUDPFree(sc udpScen, idx int) (*udpTrace, error) {
 	for c := 1; c <= sc.Clients; c++ {
 		vh.RegisterRec(vh.ClientAddr(c).String(), rec)
 	}
+	g := &udpGates{rec: rec, hold: map[string]chan struct{}{}, reached: map[string]chan struct{}{}}
+	layer4.VerifHook = g.hook
+	defer func() { layer4.VerifHook = nil }()
 	go layer4.VerifServePacket(srv, pc)
 	seq := 0
 	for i := 0; i < sc.PerClient; i++ {
@@ -82,10 +86,158 @@ func runUDPFree(sc udpScen, idx int) (*udpTrace, error) {
 	}
 	pc.Close()
 	time.Sleep(5 * time.Millisecond)
-	return &udpTrace{ID: fmt.Sprintf("udpfree:%d", idx), Scen: sc, Complete: false, Hist: rec.Snapshot()}, nil
+	return &udpTrace{ID: fmt.Sprintf("udpfree:%d", idx), Scen: sc, Complete: true, Hist: rec.Snapshot()}, nil
+}
+
+// ---- hooks: record linearization points of the UDP loop, optionally holding goroutines ----
+
+type udpGates struct {
+	mu      sync.Mutex
+	rec     *vh.Recorder
+	hold    map[string]chan struct{} // point:client -> released when closed
+	reached map[string]chan struct{}
+}
+
+func (g *udpGates) arm(key string) (reached chan struct{}, release func()) {
+	g.mu.Lock()
+	defer g.mu.Unlock()
+	h := make(chan struct{})
+	r := make(chan struct{})
+	g.hold[key], g.reached[key] = h, r
+	return r, func() { close(h) }
+}
+
+func (g *udpGates) hook(point string, obj any) {
+	id := layer4.VerifPacketConnID(obj)
+	if id == "" {
+		return
+	}
+	a := -1
+	if v, ok := vh.AssocByPtr.Load(id); ok {
+		a = v.(int)
+	}
+	switch point {
+	case "udp.close.closed":
+		g.rec.Add(vh.Ev{"e": "Closed", "a": a})
+	case "udp.loop.sent":
+		g.rec.Add(vh.Ev{"e": "LoopSent", "a": a, "ptr": id})
+	case "udp.loop.notice":
+		g.rec.Add(vh.Ev{"e": "Notice", "a": a})
+	}
+	key := point + ":" + vh.ClientOfAddrString(layer4.VerifPacketConnAddr(obj))
+	g.mu.Lock()
+	h, ok := g.hold[key]
+	r := g.reached[key]
+	if ok {
+		delete(g.hold, key)
+		delete(g.reached, key)
+	}
+	g.mu.Unlock()
+	if ok {
+		close(r)
+		<-h
+	}
+}
+
+func waitEv(rec *vh.Recorder, pred func(vh.Ev) bool, from int, max time.Duration) bool {
+	deadline := time.Now().Add(max)
+	for time.Now().Before(deadline) {
+		h := rec.Snapshot()
+		for _, e := range h[from:] {
+			if pred(e) {
+				return true
+			}
+		}
+		time.Sleep(200 * time.Microsecond)
+	}
+	return false
+}
+
+// runUDPCloseRace forces the schedule "handler returned and closed its connection, the close
+// notice not yet sent, the same client's next datagram reaches the loop" through a gate.
+func runUDPCloseRace(idx int, reads int, size int) (*udpTrace, error) {
+	rec := vh.NewRecorder(nil)
+	pc := vh.NewFakePC(rec)
+	g := &udpGates{rec: rec, hold: map[string]chan struct{}{}, reached: map[string]chan struct{}{}}
+	layer4.VerifHook = g.hook
+	defer func() { layer4.VerifHook = nil }()
+	srv, cancel, err := udpServer(map[string]any{"handler": "verif_h", "k": "udp", "n": reads, "echo": true})
+	if err != nil {
+		return nil, err
+	}
+	defer cancel()
+	vh.RegisterRec(vh.ClientAddr(1).String(), rec)
+	vh.RegisterRec(vh.ClientAddr(2).String(), rec)
+	go layer4.VerifServePacket(srv, pc)
+	reached, release := g.arm("udp.close.closed:c1")
+	seq := 0
+	for i := 0; i < reads; i++ {
+		seq++
+		pc.Inject(1, seq, size)
+	}
+	infeasible := false
+	select {
+	case <-reached:
+	case <-time.After(2 * time.Second):
+		infeasible = true
+	}
+	n0 := rec.Len()
+	seq++
+	pc.Inject(1, seq, size) // arrives while the old association is closed but still registered
+	placed := waitEv(rec, func(e vh.Ev) bool { return e["e"] == "LoopSent" || e["e"] == "New" }, n0, time.Second)
+	release()
+	seq++
+	pc.Inject(2, seq, size)
+	seq++
+	pc.Inject(1, seq, size)
+	last, stable := -1, 0
+	for i := 0; i < 400 && stable < 6; i++ {
+		time.Sleep(3 * time.Millisecond)
+		if n := rec.Len(); n == last {
+			stable++
+		} else {
+			last, stable = n, 0
+		}
+	}
+	pc.Close()
+	time.Sleep(3 * time.Millisecond)
+	return &udpTrace{ID: fmt.Sprintf("udpgate:closerace:%d", idx), Complete: !infeasible,
+		Scen: map[string]any{"schedule": "closerace", "reads": reads, "size": size, "gate_reached": !infeasible, "placed": placed}, Hist: rec.Snapshot()}, nil
 }
 
 func init() {
+	register("udp-gated", "gate-scheduled interleavings of the real servePacket loop (C09)", func(args []string) error {
+		fs := flag.NewFlagSet("udp-gated", flag.ExitOnError)
+		out := fs.String("out", "", "traces (NDJSON for L4UdpTrace)")
+		sum := fs.String("summary", "", "summary JSON")
+		reps := fs.Int("reps", 30, "repetitions")
+		fs.Parse(args)
+		lw, err := vh.NewLineWriter(*out)
+		if err != nil {
+			return err
+		}
+		infeasible := 0
+		var samples []any
+		for i := 0; i < *reps; i++ {
+			fmt.Printf("SCENARIO closerace %d\n", i)
+			tr, err := runUDPCloseRace(i, 1+i%3, []int{16, 200, 9000}[i%3])
+			if err != nil {
+				return err
+			}
+			if !tr.Complete {
+				infeasible++
+			}
+			lw.Write(tr)
+			if len(samples) < 1 {
+				samples = append(samples, tr)
+			}
+		}
+		if err := lw.Close(); err != nil {
+			return err
+		}
+		return writeJSON(*sum, map[string]any{"runs": *reps, "infeasible": infeasible, "samples": samples})
+	})
+
 	register("udp-run", "free-running datagram bursts through the real servePacket loop (C09); a crash kills this process", func(args []string) error {
 		fs := flag.NewFlagSet("udp-run", flag.ExitOnError)
 		in := fs.String("in", "", "scenario grid (NDJSON from L4UdpGrid)")
